@@ -184,6 +184,13 @@ def _get_type_boolability(typ: type, *, is_exact: bool = False) -> Boolability:
     # that does support __bool__.
     if typ is object and not is_exact:
         return Boolability.boolable
+    # Abstract base classes and protocols (e.g. Hashable, Iterable, Container) are
+    # implemented by types such as int, str and tuple that can be falsy.
+    if not is_exact and (
+        safe_getattr(typ, "__abstractmethods__", None)
+        or safe_getattr(typ, "_is_protocol", False)
+    ):
+        return Boolability.boolable
     if safe_hasattr(typ, "__len__"):
         return Boolability.boolable
     dunder_bool = safe_getattr(typ, "__bool__", None)
